@@ -1,6 +1,7 @@
 //! Shared machinery: run context, reports, evidence files, known findings, replay files.
 
 pub mod capture;
+pub mod proc;
 pub mod sandbox;
 
 use serde_json::{json, Map, Value};
